@@ -139,6 +139,7 @@ class _Gone:
 
 
 def do_op(st, op):
+    oc.common.beat("oracle: solver operation " + str(op), {"solver_spec": st.get("spec")})
     sv = st["solver"]
     if isinstance(sv, _Gone):
         st["done"] += 1
